@@ -46,9 +46,9 @@ Definition smooth (signal : list Q) (owidth : Z) (edge_truncate : bool) : list Q
   let width := smooth_width owidth in
   if smooth_returns_input width then signal else
   let n := lenZ signal in
-  let istart := smooth_istart width in
-  let iend := smooth_iend n width in
-  let w2 := smooth_w2 width in
+  let istart := smooth_istart n width owidth in
+  let iend := smooth_iend n width owidth in
+  let w2 := smooth_w2 n width owidth in
   map (fun k =>
          let i := Z.of_nat k in
          if smooth_in_lo i n istart iend w2 width then
